@@ -112,6 +112,9 @@ pub fn gen_graph(g: &mut G, max_len: usize) -> Graph {
                     (format!("{}{}", r, i + 1), "relative-path")
                 }
                 4 => (format!("?q={}", i + 1), "query-only"),
+                // (no draw) a fragment may hold `?` and `/` (a single-page application's route): it is a fragment
+                // from the `#` on, none of it is sent
+                5 if (i + len) % 2 == 1 => (format!("{}#/callback?code=abc&n={}", fresh_path(g, i + 1), i), "with-fragment-holding-a-question-mark"),
                 5 => (format!("{}#frag{}", fresh_path(g, i + 1), i), "with-fragment"),
                 6 => (String::new(), "empty"),
                 7 => ("#onlyfrag".to_string(), "fragment-only"),
@@ -500,6 +503,59 @@ fn upgrade_family(g: &mut G, ctx: &RunCtx) -> RunReport {
     RunReport { verdict, shape: format!("upgrade/{}/max{}/more={}", status, max, more), nontrivial: true, stats, sched_tape: out.sched_tape, describe: if ctx.describe { desc } else { String::new() } }
 }
 
+/// A server that "corrects" trailing slashes back and forth (or keeps adding them): every one of these is a
+/// redirect and counts; the walk ends at the bound like any other cycle.
+fn slash_family(g: &mut G, ctx: &RunCtx) -> RunReport {
+    g.probe("family:trailing-slash-corrections-without-end");
+    let status = *g.pick(&[301u16, 308, 302, 307]);
+    let max = g.below(7) as u32;
+    let grow = g.chance(1, 2);
+    let sim = Sim::new(ctx.sim_config());
+    let ip: IpAddr = "10.0.0.1".parse().unwrap();
+    sim.add_host("a.test", vec![ip]);
+    let seen = Arc::new(Mutex::new(Seen::default()));
+    {
+        let seen = seen.clone();
+        sim.add_listener(
+            ip,
+            80,
+            ConnectBehaviour::Accept { latency_ns: NS_PER_MS },
+            Some(Box::new(move |_i| {
+                Box::new(HttpPeer::new(
+                    Arc::new(move |r, _c| {
+                        let path = r.target.split('?').next().unwrap_or("/").to_string();
+                        let next = if grow || !path.ends_with('/') { format!("{}/", path) } else { path.trim_end_matches('/').to_string() };
+                        let mut s = Script::default();
+                        s.acts.push(Act::Send(format!("HTTP/1.1 {} Moved\r\nLocation: {}\r\nContent-Length: 0\r\n\r\n", status, next).into_bytes()));
+                        s.acts.push(Act::Fin);
+                        s
+                    }),
+                    seen.clone(),
+                ))
+            })),
+        );
+    }
+    let out = sim.run(|| {
+        match attohttpc::get("http://a.test/dir").max_redirections(max).proxy_settings(attohttpc::ProxySettings::builder().build()).send() {
+            Ok(r) => Ok((r.status().as_u16(), r.url().to_string())),
+            Err(e) => Err(err_kind(&e)),
+        }
+    });
+    let mut stats = Stats::default();
+    stats.absorb(&out.history);
+    let got = seen.lock().unwrap().requests.len() as u32;
+    let desc = format!("http://a.test/dir answered with {} and a Location that {} - max_redirections({})", status, if grow { "adds a slash each time" } else { "adds and removes the trailing slash in turn" }, max);
+    let verdict = match &out.result {
+        None => violation("hang", format!("run torn down ({})", desc)),
+        Some(Err(m)) => violation("panic", m.clone()),
+        Some(Ok(res)) => match res {
+            Err(k) if k == "TooManyRedirections" && got == max + 1 => Verdict::Pass,
+            other => violation("slash:bound-not-enforced", format!("{} requests were sent and send() returned {:?}; the bound allows {} requests and a too-many-redirections error ({})", got, other, max + 1, desc)),
+        },
+    };
+    RunReport { verdict, shape: format!("slash/{}/max{}/grow={}", status, max, grow), nontrivial: true, stats, sched_tape: out.sched_tape, describe: if ctx.describe { desc } else { String::new() } }
+}
+
 pub fn scenario(g: &mut G, ctx: &RunCtx) -> RunReport {
     let mut max = g.below(7) as u32;
     let follow = !g.chance(1, 6);
@@ -609,6 +665,9 @@ pub fn scenario(g: &mut G, ctx: &RunCtx) -> RunReport {
     }
     if g.chance(1, 60) {
         return upgrade_family(g, ctx);
+    }
+    if g.chance(1, 60) {
+        return slash_family(g, ctx);
     }
     let out = sim.run(|| {
         let mut session = attohttpc::Session::new();
